@@ -290,8 +290,11 @@ def verify_task(payload):
     for base, vs in out['canaries'].items():
         if 'sat' not in vs:
             out['errors'].append('canary %s was not refuted (%s): the pipeline cannot fail' % (base, vs))
+    # a canary without obligation is a checker error only if the contract had a return path the engine supports:
+    # when every path left the supported subset the contract is undecided (reported above), not the pipeline broken
+    returned = any(rec.outcome and rec.outcome[0] == 'return' for rec in recs)
     for cl in con.canaries:
-        if not any(b.endswith('/' + cl.name) for b in out['canaries']):
+        if returned and not any(b.endswith('/' + cl.name) for b in out['canaries']):
             out['errors'].append('canary %s produced no obligation' % cl.name)
     out['wall_s'] = round(time.time() - t0, 2)
     out['solver_s'] = round(sum(o['seconds'] for o in out['obligations']), 3)
